@@ -62,6 +62,7 @@ def write(pid, tier, seed, prop, us, oc, coq, violations, known_lines, wall, ext
             "disagreements_checked": len([u for u in us if u.get("cmp") is not None]),
             "known_findings_reported": sorted(set(known_lines)),
             "timing": getattr(oc, "times", {}), "coq_s": coq.get("coq_s"),
+            "vm_compute_cross_check": getattr(oc, "vm", None),
             "prtpy_under_test": os.environ.get("PRTPY_REPO", "/repo"),
             "explanation": getattr(prop, "EXPLANATION", ""),
         },
@@ -71,8 +72,10 @@ def write(pid, tier, seed, prop, us, oc, coq, violations, known_lines, wall, ext
     }
     if hasattr(prop, "extra_evidence"):
         data["coverage"].update(prop.extra_evidence())
-    os.makedirs(os.path.join(VERIF, "evidence"), exist_ok=True)
-    path = os.path.join(VERIF, "evidence", pid + ".json")
+    # evidence/ describes runs against /repo itself; runs against another tree (PRTPY_REPO, used for seeded changes) go elsewhere
+    edir = os.path.join(VERIF, "evidence") if os.path.realpath(os.environ.get("PRTPY_REPO", "/repo")) == "/repo" else os.path.join(VERIF, "work", "evidence_other_tree")
+    os.makedirs(edir, exist_ok=True)
+    path = os.path.join(edir, pid + ".json")
     with open(path, "w") as f:
         json.dump(data, f, indent=1, sort_keys=True, default=str)
     return path
